@@ -51,8 +51,17 @@ def body():
     )
     quick = chk.tier == "quick"
     # (1) exhaustive model checking of the requirement on the model of the code
-    res = common.run_tlc("History", "History.cfg", timeout=3000)
-    chk.add_tlc("History exhaustive (depth 7, 2 slots, 4 kinds)", res)
+    depth = 7 if quick else 8
+    tmp = {}
+    for name in ("History.cfg", "History_sim.cfg"):
+        tmp[name] = "_c18_%d_%s" % (os.getpid(), name)
+        with open(os.path.join(common.SPEC, name)) as fi, open(os.path.join(common.SPEC, tmp[name]), "w") as fo:
+            fo.write(fi.read().replace("MaxDepth = 7", "MaxDepth = %d" % (depth if name == "History.cfg" else (7 if quick else 10))))
+    try:
+        res = common.run_tlc("History", tmp["History.cfg"], timeout=3400)
+    finally:
+        os.remove(os.path.join(common.SPEC, tmp["History.cfg"]))
+    chk.add_tlc("History exhaustive (depth %d, 2 slots, 4 kinds)" % depth, res)
     if not res.ok:
         chk.violation("spec:" + str(res.violated), "TLC: the cache model violates %s; shortest history:\n%s" % (res.violated, "\n".join(t.split("last = ")[-1][:120] for t in res.trace)), {})
     # (2) non-vacuity: the un-keyed mass cache (the code before the fix) must violate NoInterference
@@ -61,7 +70,10 @@ def body():
     if neg.ok or neg.violated != "NoInterference":
         raise common.MachineryError("negative control did not produce the NoInterference counterexample (vacuous requirement?)")
     # (3) behaviours from TLC + directed histories, executed on the real library
-    sim = common.run_tlc("History", "History_sim.cfg", simulate="num=%d" % (12 if quick else 60), depth=9, workers=1, extra=["-seed", str(1 + chk.seed)], timeout=900)
+    try:
+        sim = common.run_tlc("History", tmp["History_sim.cfg"], simulate="num=%d" % (12 if quick else 300), depth=9 if quick else 12, workers=1, extra=["-seed", str(1 + chk.seed)], timeout=1800)
+    finally:
+        os.remove(os.path.join(common.SPEC, tmp["History_sim.cfg"]))
     hists = []
     seen = set()
     for o in sim.obligations:
